@@ -220,8 +220,21 @@ def policy_sx(pols):
     return "(" + " ".join(out) + ")"
 
 
+def _split_lines(out):
+    """Output of a scanner whose actions print 'L<yylineno>' before their event: (events only, line per event or None)."""
+    ev, lns, pending = [], [], None
+    for line in out.decode(errors="replace").splitlines():
+        if line.startswith("L") and line[1:].lstrip("-").isdigit():
+            pending = int(line[1:])
+        else:
+            ev.append(line)
+            lns.append(pending)
+            pending = None
+    return ("\n".join(ev) + ("\n" if ev else "")).encode(), lns
+
+
 def eval_reject_case(flex, workdir, prog, policies, rng, flex_opts, inputs, backend='nr', spelling='REJECT',
-                     fuel=30000, run_scs=None, cc_extra=None, extra_options=None):
+                     fuel=30000, run_scs=None, cc_extra=None, extra_options=None, lineno=False):
     """policies: {rule number: policy tuple}.  The scanner prints an event for every action executed."""
     import backends
     res = {'problems': [], 'lockstep': [], 'streams': [], 'flex_opts': list(flex_opts)}
@@ -234,9 +247,13 @@ def eval_reject_case(flex, workdir, prog, policies, rng, flex_opts, inputs, back
         leng = "yyget_leng(yyscanner)"
     actions = {}
     for i in range(nrules):
-        actions[i] = "tok(%d);%s" % (i + 1, policy_c(policies.get(i + 1, ('never',)), i + 1, rej, leng))
+        actions[i] = "%stok(%d);%s" % ("ln(); " if lineno else "", i + 1, policy_c(policies.get(i + 1, ('never',)), i + 1, rej, leng))
     extra_top = "static int cnt[%d];\n" % (nrules + 3)
     options = list(extra_options or [])
+    if lineno:
+        # the action reports the line number it sees before its event (property C09)
+        options.append("yylineno")
+        extra_top += '#define ln() printf("L%%d\\n", (int) (%s))\n' % ("yyget_lineno(yyscanner)" if backend in ('c99', 'go') else "yylineno")
     if prog.get('caseins'):
         options.append("case-insensitive")
     text = scanner.make_spec(prog, rng, options=options, actions=actions, extra_top=extra_top, backend=backend)
@@ -300,6 +317,11 @@ def eval_reject_case(flex, workdir, prog, policies, rng, flex_opts, inputs, back
             if rc != 0:
                 res['problems'].append(('scanner-abnormal', "rc=%s sc=%d input=%s stderr=%s" % (rc, sc, hexs(w), err.decode(errors="replace")[:200])))
                 continue
+            if lineno:
+                out, lns = _split_lines(out)
+                res.setdefault('linenos', {})[(ii, sc)] = lns
+                queries.append("(rejtokens_ln %d 1 %s %s)" % (sc, wsx, psx))
+                order.append(('lines', ii, sc))
             real[(ii, sc)] = scanner.parse_tokens(out)
             if var:
                 # variable trailing context: the text handed to an action is judged by the proved validator
@@ -329,6 +351,20 @@ def eval_reject_case(flex, workdir, prog, policies, rng, flex_opts, inputs, back
     for (kind, ii, sc), line in zip(order, lines[nls:]):
         r = real[(ii, sc)]
         rr = [(a, b) for a, b, _ in r]
+        if kind == 'lines':
+            exp = [tuple(int(x) for x in t.split(":")) for t in line.split()[1:]]
+            got = res['linenos'][(ii, sc)]
+            res['lines_compared'] = res.get('lines_compared', 0) + sum(1 for g in got if g is not None)
+            if var or res['dangerous']:
+                continue
+            if [(a, b) for a, b, _ in exp] == rr:
+                bad = [(i, e, g) for i, (e, g) in enumerate(zip(exp, got)) if g is not None and g != e[2]]
+                if bad:
+                    i, e, g = bad[0]
+                    res['problems'].append(('lineno-mismatch', "sc=%d input=%s event %d (rule %d, yyleng %d): the action saw yylineno %d, "
+                                            "documented %d (1 + newlines consumed before the token + newlines of yytext); events=%s" % (
+                                                sc, hexs(inputs[ii]), i, e[0], e[1], g, e[2], rr[:i + 1][-6:])))
+            continue
         if kind == 'validate':
             okv = line.strip() == "rejvalidate x OK"
             res['streams'].append({'input': hexs(inputs[ii]), 'sc': sc, 'real': rr, 'valid': okv, 'text_ok': True, 'variable_trailing': True})
